@@ -3,6 +3,10 @@
  * can be reset between histories (parsec_taskpool_release_resources, as parsec_fini does) and encoded canonically. */
 #include "parsec/parsec.c"
 #include "seqx.h"
+#include <setjmp.h>
+#include <signal.h>
+static sigjmp_buf jb; static volatile int jb_armed = 0;
+static void on_abort(int sg) { (void)sg; if (jb_armed) siglongjmp(jb, 1); _exit(3); }
 
 #ifndef NP
 #define NP 5                       /* taskpools */
@@ -56,6 +60,8 @@ static int oracle(obj_t *o, char *err)
 static int apply(void *p, int op, char *err)
 {
     obj_t *o = p;
+    jb_armed = 1;
+    if (sigsetjmp(jb, 1)) { jb_armed = 0; taskpool_array_lock = 0; snprintf(err, SX_ERRLEN, "the registry aborted (its own assertion failed) on an operation the usage contract allows"); return 1; }
     if (op < NP) {
         int id = parsec_taskpool_reserve_id(&o->tp[op]);
         if (id < 1) { snprintf(err, SX_ERRLEN, "reserve_id returned %d (identifiers start at 1)", id); return 1; }
@@ -72,7 +78,7 @@ static int apply(void *p, int op, char *err)
     } else {
         parsec_taskpool_sync_ids();
     }
-    return oracle(o, err);
+    { int rc = oracle(o, err); jb_armed = 0; return rc; }
 }
 static size_t canon(void *p, char *b, size_t cap)
 {
@@ -92,6 +98,7 @@ static void opname(int op, char *b, size_t cap)
 int main(int argc, char **argv)
 {
     sx_init(argc, argv, "C37");
+    struct sigaction sa; memset(&sa, 0, sizeof(sa)); sa.sa_handler = on_abort; sa.sa_flags = SA_NODEFER; sigaction(SIGABRT, &sa, NULL);
     int depth = 7;
     for (int i = 1; i < argc; i++) if (!strcmp(argv[i], "--depth") && i + 1 < argc) depth = atoi(argv[i + 1]);
     char nm[64]; snprintf(nm, sizeof(nm), "registry_%dpools_depth%d", NP, depth);
